@@ -248,8 +248,14 @@ def callable_cached(func: CallableT) -> CallableT:
             try:
                 # Call this parameter with these parameters and cache the value
                 # returned by this call to these parameters.
-                return_value = args_flat_to_return_value[args_flat] = func(
-                    *args)
+                #
+                # Note that dict.setdefault() is atomic under the GIL. If
+                # another thread concurrently cached a value for these
+                # parameters since the lookup above, that value is returned
+                # (and the value computed here discarded), preserving the
+                # guarantee that equal parameters yield the same object.
+                return_value = args_flat_to_return_value.setdefault(
+                    args_flat, func(*args))
             # If this call raised an exception...
             except Exception as exception:
                 # Cache this exception to these parameters.
